@@ -170,6 +170,15 @@ def systematic_cases():
         out.append(("cast:" + op, [a, b]))
         for sc, n in (("V", 4), ("S", 2)):
             out.append(("cast:" + op, ["%s%d(%s)" % (sc, n, a), "%s%d(%s)" % (sc, n, b)]))
+    # pointer casts whose TARGET differs from the source in more than the one thing the cast is about (the result is the target type as written, whatever the source)
+    for a, b in (("p0(i8)", "p1(i32)"), ("p0(s(i32,i8))", "p3(i8)"), ("p2(i8)", "p0(a4(i16))"), ("p1(F(i32;i8))", "p0(i8)"), ("p0(i8)", "p5(p0(i8))"), ("p0(n61)", "p1(i8)")):
+        out.append(("cast:addrspacecast", [a, b]))
+        out.append(("cast:addrspacecast", ["V2(%s)" % a, "V2(%s)" % b]))
+    for a, b in (("p0(i8)", "p0(i64)"), ("p1(i8)", "p1(s(i32))"), ("p0(F(v;))", "p0(i8)"), ("p0(n61)", "p0(i8)"), ("V2(i32)", "i64"), ("i64", "V4(i16)"), ("V2(p0(i8))", "V2(p0(i32))")):
+        out.append(("cast:bitcast", [a, b]))
+    for a, b in (("p1(i32)", "i32"), ("p0(s(i8))", "i8"), ("V2(p1(i8))", "V2(i16)")):
+        out.append(("cast:ptrtoint", [a, b]))
+        out.append(("cast:inttoptr", [b, a]))
     return out
 
 
